@@ -74,7 +74,7 @@ type lbEngine struct {
 	scanNeed    map[string]int64 // C14/R10: terminator -> bytes of the opener the search must have left behind
 	searchCalls map[*ssa.Function][]*ssa.Call
 	clsSets     map[*ssa.Function]*bset
-	posProbe    map[*ssa.Call]bool // summary run over File.Position: is the argument of this ResolvePos call proved <= len(Buffer)?
+	posProbe    map[*ssa.Call]bool          // summary run over File.Position: is the argument of this ResolvePos call proved <= len(Buffer)?
 	scanFns     map[string]bool             // functions whose loops are byte scans: checked for unit steps and exhaustive exits
 	progress    bool                        // C03/R7: every loop iteration advances the cursor or a counter
 	tiling      bool                        // C13/R4: track the Space/Raw/Pos/End stores of tokens and comments
